@@ -170,6 +170,9 @@ def fft_arms(an, prog):
 def run(ctx, env):
     prog = env.prog("default")
     an = An(prog)
+    ctx.rule("R4.10", "V9 templates: every parsed template reaches the cache by an overwriting write on every path, and the template reported in the result is the parsed one (shared with C06 R6.8)")
+    from . import c06 as _c06
+    _c06.rule_template_reaches_cache(ctx, prog, an, "R4.10", only_adt="variable_versions::v9::V9Parser")
     lay = Layouts(prog, an)
     ctx.rule("R4.1", "V9 flowset body = header.length saturating-minus 4 (wire size of FlowSetHeader)")
     ctx.rule("R4.2", "flowset id 0 reaches Templates::parse only, id 1 reaches OptionsTemplates::parse only, ids >= 256 reach neither")
